@@ -348,6 +348,10 @@ func (v *V) evalBuiltin(e *Env, name string, call *ast.CallExpr) []Val {
 		k := v.coerce(e, e.eval(call.Args[1]), m.T.Underlying().(*types.Map).Key())
 		v.mapDelete(e, m, k)
 		return nil
+	case "close":
+		e.eval(call.Args[0])
+		v.abstraction("close of a channel at " + v.prog.pos(call.Pos()) + " treated as a no-op event")
+		return nil
 	case "panic":
 		v.oblige(e, "panic", "false", call.Pos(), "explicit panic reachable")
 		e.st.dead = true
@@ -958,6 +962,17 @@ func (v *V) callFuncValue(e *Env, fv Val, call *ast.CallExpr) []Val {
 func (v *V) knownExternal(e *Env, fn *types.Func, recv *Val, call *ast.CallExpr) ([]Val, bool) {
 	full := fn.FullName()
 	arg := func(i int) Val { return e.eval(call.Args[i]) }
+	if strings.HasPrefix(full, "sync/atomic.") && !e.spec {
+		// statistics counters and flags updated atomically are not modelled: the operands are not
+		// evaluated (they are addresses of fields), a returned value is unconstrained
+		v.abstraction("sync/atomic operations (statistics counters) are not modelled: " + full + " at " + v.prog.pos(call.Pos()))
+		sig := fn.Type().(*types.Signature)
+		var out []Val
+		for i := 0; i < sig.Results().Len(); i++ {
+			out = append(out, v.freshVal(e.st, "atomic", sig.Results().At(i).Type()))
+		}
+		return out, true
+	}
 	switch full {
 	case "math.Float64bits":
 		a := v.coerce(e, arg(0), tFloat64)
